@@ -509,7 +509,11 @@ def run_harness_limited(binary, lines, max_crashes, timeout=None):
     outs, logs = [], {}
     env = dict(os.environ)
     env.setdefault("ASAN_OPTIONS", "detect_leaks=1:abort_on_error=0:halt_on_error=1")
-    env.setdefault("UBSAN_OPTIONS", "print_stacktrace=1")
+    # the recoverable UBSan checks (null, nonnull-attribute and — gcc routes them through the same handler — alignment)
+    # halt too: a report on stderr of a process that exits 0 would otherwise go unnoticed (round 4, M32: a small-object
+    # buffer that ignores the alignment of the held type).  Reports raised inside Eigen's own headers on empty operands
+    # are re-examined as in vlib.run_harness (vlib.benign_ubsan).
+    env.setdefault("UBSAN_OPTIONS", "print_stacktrace=1:halt_on_error=1")
     i, crashes, lsan = 0, 0, False
     if timeout is None:
         timeout = 20 + len(lines) // 300      # a clean run needs about 1 s per 3000 sequences
@@ -558,9 +562,17 @@ def run_harness_limited(binary, lines, max_crashes, timeout=None):
             raise vlib.BuildError("harness produced %d lines for %d cases" % (len(got), len(chunk)))
         ncomplete = min(len(got), len(chunk) - 1)
         outs.extend(got[:ncomplete])
-        outs.append(vlib.classify_crash(e, rc))
-        logs[len(outs) - 1] = e[-3000:]
-        crashes += 1
+        kind = vlib.classify_crash(e, rc)
+        again = None
+        if kind == "crash:ubsan" and vlib.benign_ubsan(e):
+            again = vlib._rerun_tolerating_eigen_null(binary, chunk[ncomplete], timeout, env)
+        if again is not None:
+            outs.append(again)
+            vlib.BENIGN_UBSAN_CASES.append(chunk[ncomplete][:200])
+        else:
+            outs.append(kind)
+            logs[len(outs) - 1] = e[-3000:]
+            crashes += 1
         i = len(outs)
     return outs, logs, lsan
 
